@@ -120,4 +120,17 @@ CHECKS.update({
     },
 })
 
+_THOROUGH = {
+    "C01": " Thorough tier: one end-to-end run (370 confirmed, 7 shards inconclusive for harness reasons corrected afterwards, not re-run).",
+    "C06": " Thorough tier: one end-to-end run (166 confirmed, 5 shards timed out; re-sharded afterwards, not re-run).",
+    "C11": " Thorough tier: the end-to-end run was stopped after 56/69 conditions (44 confirmed, 12 over budget); depth reduced afterwards, not re-run.",
+    "C08": " Thorough tier: defined but not run end-to-end in this round.",
+    "C09": " Thorough tier: defined but not run end-to-end in this round.",
+}
+for _k, _v in _THOROUGH.items():
+    CHECKS[_k]["note"] += _v
+for _k in CHECKS:
+    if _k not in _THOROUGH:
+        CHECKS[_k]["note"] += " Thorough tier: run end-to-end once, exit 0 (times in DESIGN.md §8.7)."
+
 NOT_APPLICABLE = {}
